@@ -324,6 +324,9 @@ class J1939_21:
                 self._snd_buffer[buffer_hash]['deadline'] = time.time() + self.Timeout.Th
                 self.__job_thread_wakeup()
                 return
+            if self._snd_buffer[buffer_hash]['state'] != self.SendBufferState.WAITING_CTS:
+                # no CTS expected: broadcast session, packets still being sent or transfer already finished
+                return
 
             num_packages_all = self._snd_buffer[buffer_hash]["num_packages"]
             if num_packages > num_packages_all:
